@@ -65,7 +65,16 @@ type sCaseT struct {
 	Shape sShape `json:"shape"`
 }
 
+// user-defined types with a supported underlying type (reflect.StructOf cannot declare new
+// named types, but a field may have any existing one)
+type (
+	Level  int
+	Label  string
+	Labels []string
+)
+
 var shapeGoTypes = map[string]reflect.Type{
+	"named-int": reflect.TypeOf(Level(0)), "*named-string": reflect.TypeOf((*Label)(nil)), "named-strings": reflect.TypeOf(Labels{}),
 	"string": reflect.TypeOf(""), "*int": reflect.TypeOf((*int)(nil)), "[]uint8": reflect.TypeOf([]byte{}),
 	"bool": reflect.TypeOf(false), "float64": reflect.TypeOf(float64(0)), "[]string": reflect.TypeOf([]string{}),
 	"*[]string": reflect.TypeOf((*[]string)(nil)), "time.Time": reflect.TypeOf(time.Time{}), "*uint64": reflect.TypeOf((*uint64)(nil)),
